@@ -387,6 +387,7 @@ def check_swallow(ctx: Ctx, rep: Report, err_base: ClassInfo) -> None:
                 rep.ok("C08-R5", site, text, f"allow-listed: {reasons[0]}")
             else:
                 rep.violated("C08-R5", site, text, "the handler catches a supertype/subtype of ErrorResponse and continues normally", key=f"{fn.key}|swallow|{','.join(relevant)}")
+    check_conversion(ctx, rep, err_base)
     # forced evaluation: the sender-calling method reads <decoded>.value before returning
     send = ctx.send_method()
     forced = False
@@ -401,3 +402,80 @@ def _ancestors(node: ast.AST):
     from ..engine.universe import ancestors
 
     return list(ancestors(node))
+
+
+def forces_pdu(ctx: Ctx, fn: FuncInfo, node: ast.AST, depth: int = 0, seen=None) -> List[str]:
+    """Places inside *node* (and the repository functions it calls) that read .value of a lazily decoded PDU."""
+    seen = seen if seen is not None else set()
+    pdu = ctx.u.cls("puresnmp.pdu:PDU")
+    out: List[str] = []
+    for sub in ast.walk(node):
+        if isinstance(sub, ast.Attribute) and sub.attr in ("value", "pyvalue"):
+            for cls in ctx.r.expr_classes(fn, sub.value):
+                if ctx.r.is_subclass(cls, pdu):
+                    out.append(f"{fn.qualname}:{getattr(sub, 'lineno', '?')} `{norm(sub)}`")
+        if isinstance(sub, ast.Call) and depth < 3:
+            for callee in ctx.r.callees(fn, sub):
+                if isinstance(callee, FuncInfo) and not callee.module.external and callee.key not in seen and callee.module.name.startswith("puresnmp"):
+                    seen.add(callee.key)
+                    body = ast.Module(body=list(callee.node.body), type_ignores=[])
+                    out += forces_pdu(ctx, callee, body, depth + 1, seen)
+    return out
+
+
+def check_conversion(ctx: Ctx, rep: Report, err_base: ClassInfo) -> None:
+    """No try block on the incoming path turns a decoded agent error-status into another exception."""
+    from .common import mpm_class, own_method
+
+    roots = [ctx.send_method()]
+    for ident in (0, 1, 3):
+        try:
+            roots.append(own_method(ctx, mpm_class(ctx, ident), "decode"))
+        except AnalysisError:
+            pass
+    # functions reachable from the decode entry points
+    reach: Dict[str, FuncInfo] = {}
+    stack = list(roots)
+    while stack:
+        fn = stack.pop()
+        if fn.key in reach or fn.module.external:
+            continue
+        reach[fn.key] = fn
+        for node in own_nodes(fn.node):
+            if isinstance(node, ast.Call):
+                for callee in ctx.r.callees(fn, node):
+                    if isinstance(callee, FuncInfo) and callee.module.name.startswith("puresnmp") and callee.name not in ("encode", "generate_request_message", "send_discovery_message"):
+                        stack.append(callee)
+    examined = 0
+    for fn in reach.values():
+        for node in own_nodes(fn.node):
+            if not isinstance(node, ast.Try):
+                continue
+            for h in node.handlers:
+                types = list(h.type.elts) if isinstance(h.type, ast.Tuple) else [h.type]
+                broad = False
+                for t in types:
+                    if t is None or norm(t).split(".")[-1] in ("Exception", "BaseException"):
+                        broad = True
+                    else:
+                        cls = ctx.r.resolve_class(fn.module, t)
+                        if cls is not None and (ctx.r.is_subclass(err_base, cls) or ctx.r.is_subclass(cls, err_base)):
+                            broad = True
+                if not broad:
+                    continue
+                transparent = all(isinstance(s, ast.Raise) and s.exc is None for s in h.body if isinstance(s, ast.Raise)) and any(isinstance(s, ast.Raise) for s in h.body)
+                if transparent:
+                    continue
+                examined += 1
+                body = ast.Module(body=list(node.body), type_ignores=[])
+                forced = forces_pdu(ctx, fn, body)
+                allowed = fn.name == "multiwalk"
+                rep.check(
+                    not forced or allowed,
+                    "C08-R5",
+                    fn.site(h),
+                    "no lazily decoded PDU is evaluated inside a try whose handler converts or swallows ErrorResponse (the agent's error-status would surface as a different exception)",
+                    "; ".join(forced[:3]),
+                    key=f"{fn.key}|error-status-converted",
+                )
+    rep.analysed["converting_handlers_on_incoming_path"] = examined
